@@ -431,6 +431,22 @@ def run_c20(ctx: common.Ctx):
                 except Exception:
                     pass
             ctx.count('pairs_compared')
+        # "a deep copy equals its original" - also for models that carry a non-default indent_by (assigned by the user
+        # or given to from_value/from_children); the copy must be equal both ways, the original equal to itself
+        for p, m in ([trees[0]] if trees else []) + ([r.choice(trees)] if trees else []):
+            h = copy.deepcopy(m)
+            holders = [x for _, x in treewalk.walk(h) if isinstance(x, base.RawTreeModel) and 'indent_by' in x.__dict__]
+            if holders and r.random() < 0.6:
+                r.choice(holders).indent_by = r.choice(['  ', '\t', '      '])
+            try:
+                c = copy.deepcopy(h)
+            except Exception:
+                continue              # a failing deepcopy is C11's business
+            if not (c == h) or not (h == c) or not (h == h):
+                ctx.monitor_failure('C20:copy-unequal', f'{p}: a deep copy does not equal its original (same type '
+                                    f'{type(c) is type(h)}, same text {treewalk.text_of(c) == treewalk.text_of(h)}, same structure '
+                                    f'{treewalk.dump(c) == treewalk.dump(h)})', dict(w, path=p))
+            ctx.count('pairs_compared')
         # a single edit makes the document unequal to its untouched twin
         hist = []
         for k in range(3):
@@ -542,7 +558,8 @@ def _arg(r, cls_name: str, pname: str, full: bool):
     if pname in ('leading_comment', 'trailing_comment'):
         return r.choice([None, None, 'c', 'two\nlines', '', 'a\n  \nb', ' ', 'a\n\t\nb', 'x\n\ny'])
     if pname == 'inline_comment':
-        return r.choice([None, None, 'ic', ''])
+        # values ending in blanks / tabs are in the domain (the lexeme keeps them); leading blanks are not
+        return r.choice([None, None, 'ic', '', 'trail ', 'tab\t', '\t', 'a  b  '])
     if pname == 'meta':
         return r.choice([None, {}, {'kk': 'v'}, {'aa': D('1'), 'bb': None, 'cc': datetime.date(2020, 1, 2), 'dd': True,
                                                  'ee': 'two\nlines'}])
@@ -672,8 +689,8 @@ def run_c15(ctx: common.Ctx):
                 if cn in kwargs and hasattr(g, cn):
                     want, got_c = getattr(m, cn), getattr(g, cn)
                     if cn == 'inline_comment' and isinstance(want, str):
-                        want = want.strip(' ')
-                        got_c = got_c.strip(' ') if isinstance(got_c, str) else got_c
+                        want = want.lstrip(' ')
+                        got_c = got_c.lstrip(' ') if isinstance(got_c, str) else got_c
                     if want != got_c:
                         ctx.monitor_failure('C15:comment-differs-after-reparse', f'{cls.__name__}.from_value({cn}={kwargs[cn]!r}) prints '
                                             f'{text!r}; the re-parsed model reads {cn} = {got_c!r}', dict(w, printed=text))
@@ -750,6 +767,69 @@ def run_c05_costs(ctx: common.Ctx):
                                     {'text': text, 'history': hist})
                 break
         ctx.case({'cost_form': form, 'history': hist}, nontrivial=bool(hist))
+
+
+def run_c15_expressions(ctx: common.Ctx):
+    """Directed: the hand-written expression classes built with from_children from free-standing operand trees
+    (numbers, signed atoms, parenthesised sums - every position, incl. the LAST operand): the result must be a
+    complete well-formed tree in its own store, print the operands joined by the operators, and - wrapped into a
+    NumberExpr, the parse target the grammar offers - re-parse to an equal model with the same value."""
+    import copy
+    from autobean_refactor import models
+    from autobean_refactor import parser as parser_lib
+    parser = parser_lib.Parser()
+
+    def atom(text):
+        e = parser.parse(text, models.NumberExpr)
+        return copy.deepcopy(e.raw_number_add_expr.raw_operands[0].raw_operands[0])
+
+    def mul(texts, ops):
+        return models.NumberMulExpr.from_children(tuple(atom(t) for t in texts), tuple(models.MulOp.from_raw_text(o) for o in ops))
+
+    atoms = ['2', '-3', '(4)', '-(1 + 2)', '+5', '(6 * 7)', '10.50']
+    for _ in range(ctx.scale(40, 400)):
+        r = random.Random(ctx.rng.randrange(1 << 30))
+        n_terms = r.choice([1, 2, 3])
+        terms, add_ops, parts = [], [], []
+        try:
+            for i in range(n_terms):
+                k = r.choice([1, 2, 3])
+                ts = [r.choice(atoms) for _ in range(k)]
+                os_ = [r.choice(['*', '/']) for _ in range(k - 1)]
+                terms.append((ts, os_))
+            muls = [mul(ts, os_) for ts, os_ in terms]
+            add_ops = [r.choice(['+', '-']) for _ in range(n_terms - 1)]
+            w = {'terms': terms, 'add_ops': add_ops}
+            ctx.count('expression_constructions')
+            for (ts, os_), m_ in zip(terms, muls):
+                exp = ts[0] + ''.join(f' {o} {t}' for o, t in zip(os_, ts[1:]))
+                probs = treewalk.wf_problems(m_, expect_whole_store=True)
+                if probs or treewalk.text_of(m_) != exp:
+                    ctx.monitor_failure('C15:constructed-not-wf', f'NumberMulExpr.from_children({ts}, {os_}) is not a complete tree printing '
+                                        f'{exp!r}: {probs[0] if probs else treewalk.text_of(m_)!r}', w)
+                    raise StopIteration
+                for i, (t, o) in enumerate(zip(ts, m_.raw_operands)):
+                    if treewalk.text_of(o) != t or o.token_store is not m_.token_store:
+                        ctx.monitor_failure('C15:constructed-not-wf', f'NumberMulExpr.from_children({ts}, {os_}): operand {i} prints '
+                                            f'{treewalk.text_of(o)!r} / lives in another store, expected {t!r}', w)
+                        raise StopIteration
+                parts.append(exp)
+            a = models.NumberAddExpr.from_children(tuple(muls), tuple(models.AddOp.from_raw_text(o) for o in add_ops))
+            exp = parts[0] + ''.join(f' {o} {t}' for o, t in zip(add_ops, parts[1:]))
+            probs = treewalk.wf_problems(a, expect_whole_store=True)
+            if probs or treewalk.text_of(a) != exp:
+                ctx.monitor_failure('C15:constructed-not-wf', f'NumberAddExpr.from_children(...) is not a complete tree printing {exp!r}: '
+                                    f'{probs[0] if probs else treewalk.text_of(a)!r}', w)
+                continue
+            e = models.NumberExpr.from_children(a)
+            probs = treewalk.wf_problems(e, expect_whole_store=True)
+            g = parser.parse(treewalk.text_of(e), models.NumberExpr)
+            if probs or not (g == e) or g.value != e.value or treewalk.dump(g) != treewalk.dump(e):
+                ctx.monitor_failure('C15:reparse-content-differs', f'NumberExpr built from constructed operands prints {treewalk.text_of(e)!r}; '
+                                    f'the re-parsed model differs (wf: {probs[:1]}, equal: {g == e}, values {e.value} / {g.value})', w)
+            ctx.case({'expr': exp}, nontrivial=True)
+        except StopIteration:
+            continue
 
 
 def run_c15_comment_layouts(ctx: common.Ctx):
